@@ -7,6 +7,7 @@ import SfsModel.Model.Array
 import SfsModel.Model.Spectrum
 import SfsModel.Model.XR
 import SfsModel.Driver.Proto
+import SfsModel.Driver.Create
 open Sfs Sfs.Drv
 
 def half : XR := .fin (1 / 2)
@@ -121,7 +122,12 @@ def handle (op : String) (a : List String) (impl : String) : Option Verdict :=
       if impl.startsWith "OK " then pure (cmpArr (impl.drop 3).toString b.shape b.data (some floor) optTag)
       else pure (.bad s!"OK {showNats b.shape}|{showXRs b.data}")
     | .error e => pure (cmpStr impl (viewErrRender e) s!"{kind}-error")
-  | _, _ => none
+  | _, _ =>
+    match op.splitOn "." with
+    | [p, "mem"] => handleMem a impl p
+    | [p, "cli"] => handleCli a impl p
+    | ["c12", "same"] => handleSame a impl
+    | _ => none
 
 def processLine (line : String) : String :=
   let line := (line.dropRightWhile (fun c => c == '\n' || c == '\r'))
@@ -131,7 +137,7 @@ def processLine (line : String) : String :=
     | op :: args =>
       match handle op args impl with
       | some (.ok tag) => s!"ok\t{tag}"
-      | some (.bad m) => s!"MISMATCH\tmodel={m}\t{line}"
+      | some (.bad m) => s!"MISMATCH\tmodel={(m.replace "\n" "\\n").replace "\t" "\\t"}\t{line}"
       | none => s!"BAD-LINE\t{line}"
     | [] => s!"BAD-LINE\t{line}"
   | _ => s!"BAD-LINE\t{line}"
